@@ -25,7 +25,16 @@ Render(ls, crlf, fin) ==
 Uniform(ls) == LET all == 1..Len(ls) IN <<Render(ls, {}, TRUE), Render(ls, {}, FALSE), Render(ls, all, TRUE), Render(ls, all, FALSE)>>
 Mixed(ls) == IF Len(ls) > 4 THEN <<>>
              ELSE SetToSeq({Render(ls, c, TRUE) : c \in SUBSET (1..Len(ls))} \cup {Render(ls, c, FALSE) : c \in SUBSET (1..Len(ls))})
+\* blank lines before the first FASTA record / after the last record belong to the documented formats
+Blanks(k) == [i \in 1..k |-> <<>>]
+WithBlanks(ls, lead, trail) == (Blanks(lead) \o ls) \o Blanks(trail)
+\* (a trailing empty line cannot drop its terminator)
+UniformT(ls) == IF ls[Len(ls)] = <<>> THEN <<Render(ls, {}, TRUE), Render(ls, 1..Len(ls), TRUE)>> ELSE Uniform(ls)
 ASSUME \A st \in FaStructs : PrintT(<<"GROUP", ToJson([fmt |-> "fasta", r |-> Uniform(FaFileLines(st)) \o Mixed(FaFileLines(st))])>>)
+ASSUME \A st \in {s \in FaStructs : Len(s) = 1} : \A lead \in 0..3, trail \in 0..1 : lead + trail > 0 =>
+          PrintT(<<"GROUP", ToJson([fmt |-> "fasta", r |-> UniformT(WithBlanks(FaFileLines(st), lead, trail))])>>)
+ASSUME \A st \in {s \in FqStructs : Len(s) = 1} : \A trail \in 1..2 :
+          PrintT(<<"GROUP", ToJson([fmt |-> "fastq", r |-> UniformT(WithBlanks(FqFileLines(st), 0, trail))])>>)
 \* a FASTQ file whose last quality line is empty cannot drop its final terminator (the line would vanish)
 FqUniform(ls) == IF ls[Len(ls)] = <<>> THEN <<Render(ls, {}, TRUE), Render(ls, 1..Len(ls), TRUE)>> ELSE Uniform(ls)
 ASSUME \A st \in FqStructs : PrintT(<<"GROUP", ToJson([fmt |-> "fastq", r |-> FqUniform(FqFileLines(st))])>>)
